@@ -34,6 +34,7 @@ structure S2Facts (G : Nat → List Nat) (E : List (Nat × Nat)) (sm S2 : SM) (u
       S2.sgLen g = some (winGroup sm S2 u (u :: ru) (v :: rv) g).length ∧
       (∀ y ∈ winGroup sm S2 u (u :: ru) (v :: rv) g, y < sm.n ∧ rep1 sm u v y = g) ∧
       (winGroup sm S2 u (u :: ru) (v :: rv) g).Pairwise (NoBack G) ∧
+      (winGroup sm S2 u (u :: ru) (v :: rv) g).Nodup ∧
       (∀ y ∈ winGroup sm S2 u (u :: ru) (v :: rv) g, y ∈ (u :: ru) ++ (M.flatten ++ (v :: rv))) ∧
       (g ≠ u → winGroup sm S2 u (u :: ru) (v :: rv) g ∈ M)
   pspec : ∀ x p, WR u M x → p ∈ winP sm S2 u v A.flatten.length
